@@ -281,7 +281,7 @@ class SendLoopNeverEarly(FnCheck):
 # which parameter set a message is scheduled with: SOAP-over-UDP prescribes MULTICAST_UDP_REPEAT (4) for datagrams to
 # the multicast group and UNICAST_UDP_REPEAT (2) for unicast answers
 import ast as _ast   # noqa: E402
-from pyvc.api import ScanCheck   # noqa: E402
+from pyvc.api import ScanCheck, Raise, vint   # noqa: E402
 
 
 @register
@@ -324,3 +324,70 @@ class RepeatParamsPerDestination(ScanCheck):
                 val = c.args[1].value
             out.append((f'repeat_count.{name}', val == want, {'value': val, 'soap_over_udp': want}))
         return out
+
+
+@register
+class SendMsgAlwaysTransmits(FnCheck):
+    id = 'C15.send_msg_always_transmits'
+    prop = 'C15'
+    tag = 'S'
+    opaque_ok = True
+    target = f'{NT}:NetworkingThread._send_msg'
+    doc = ('_send_msg(entry, socket): every scheduled queue entry that the send loop hands over is transmitted - exactly '
+           'one sendto on the given socket with the serialised message of that entry to the address and port of that '
+           'entry - whatever has been received or sent before (no entry of the schedule is skipped, so a message goes '
+           'out 1 + repeat times); a socket error is logged and does not escape')
+
+    def setup(self, b):
+        self.addr, self.port = b.str('addr'), b.int('port')
+        self.cm = b.obj('created_message')
+        self.msg = b.obj('outbound_message', created_message=self.cm, addr=self.addr, port=self.port)
+        self.q = b.obj('enqueued_message', msg=self.msg, repeat=b.int('repeat'))
+        self.sock = b.obj('socket')
+        self.o = b.obj('self', cls=(NT, 'NetworkingThread'))
+        b.distinct(self.o, self.q, self.msg, self.cm, self.sock)
+        b.st.ghost['sent'] = ()
+        b.st.ghost['c:data'] = None
+        return self.o, [self.q, self.sock], {}
+
+    stable_fields = ('msg', 'created_message', 'addr', 'port')
+
+    def callees(self, ex):
+        def serialize(ex_, st, args, kwargs):
+            d = vany(fresh(Val, 'datagram'))
+            st.ghost['c:ser'] = st.ghost.get('c:ser', ()) + ((st.ghost.get('c:recv'), st.box(d)),)
+            return d
+
+        def sendto(ex_, st, args, kwargs):
+            dest = args[1] if len(args) > 1 else None
+            st.ghost['sent'] = st.ghost['sent'] + ((st.ghost.get('c:recv'), st.box(args[0]),
+                                                   tuple(st.box(x) for x in dest.py) if dest is not None and dest.kind == 'tuple' else None),)
+            return [(st.fork(), Raise(ex_.mk_exc('OSError', 'sendto'))), (st, vint(fresh(IntS, 'n')))]
+        return {'*.serialize': Pure(serialize, name='CreatedMessage.serialize()'),
+                '*.sendto': Pure(sendto, name='socket.sendto (may raise OSError)', trusted=True)}
+
+    def hooks(self, ex):
+        class H:
+            tracked_names = ('sendto', 'serialize')
+
+            @staticmethod
+            def on_call(ex_, st, fv, keys, args, kwargs, node):
+                if fv.t == 'method':
+                    st.ghost['c:recv'] = st.box(fv.recv)
+                return None
+        return H
+
+    def post(self, ex, st0, st, outcome, b):
+        if outcome[0] == 'exc':
+            ex.oblige(st, 'socket_errors_do_not_escape', z3.BoolVal(False), info={'exc': repr(outcome[1])})
+            return
+        sent = st.ghost['sent']
+        ser = st.ghost.get('c:ser', ())
+        ex.oblige(st, 'exactly_one_transmission', z3.BoolVal(len(sent) == 1), info={'n': len(sent)})
+        if len(sent) == 1:
+            recv, data, dest = sent[0]
+            ex.oblige(st, 'on_the_given_socket', recv == Val.ref(self.sock.e))
+            ex.oblige(st, 'the_serialised_message_of_this_entry',
+                      z3.Or(*[z3.And(r == Val.ref(self.cm.e), data == d) for r, d in ser if r is not None]) if ser else z3.BoolVal(False))
+            ex.oblige(st, 'to_the_address_of_this_entry', z3.And(dest[0] == Val.str(self.addr.e), dest[1] == Val.int(self.port.e))
+                      if dest is not None and len(dest) == 2 else z3.BoolVal(False))
